@@ -750,6 +750,12 @@ class C10(TraceProp):
         for _ in range(n):
             spec = envs.shape_m2m({'strategy': rng.choice(['validity', 'subquery'])}, plugins=[])
             spec['shape'] = 'm2m'
+            if rng.random() < 0.3:
+                # key attributes named differently from their columns (ident = Column('id')): transactions that change
+                # ONLY links must still be noticed
+                for c in spec['classes'][:rng.choice([1, 2])]:
+                    c['columns'][0]['attr'] = 'ident'
+                spec['aliased_keys'] = True
             prog = [['add', 'Article', [i], {'name': i}] for i in (1, 2, 3)] + [['add', 'Tag', [i], {'name': i}] for i in (1, 2, 3)] + [['commit']]
             linked = set()
             for _tx in range(rng.choice([1, 2, 3])):
